@@ -156,9 +156,8 @@ pub fn c02(a: &Analysis) -> Vec<Violation> {
 
 pub fn c03(a: &Analysis) -> Vec<Violation> {
     let mut v = vec![];
-    if a.lex_err.is_some() {
-        return v;
-    }
+    // when the stream stops decoding somewhere (C04's business), the opcodes decoded up to that
+    // point were still emitted and executed: their operands are judged
     let verdict = machine::run(&a.ops, true, false);
     if let Some((i, k)) = verdict.kind_violations.first() {
         let op = &a.ops[*i];
